@@ -1024,6 +1024,11 @@ func (c *FnCtx) dispatchCall(st *State, fn *types.Func, sig *types.Signature, re
 	if !ok {
 		return Val{}, false
 	}
+	// only interfaces declared in the repository are resolved by cases; a standard-library
+	// interface value (io.Reader, hash.Hash, ...) is external
+	if fn.Pkg() == nil || !c.eng.isRepoPkg(fn.Pkg().Path()) {
+		return Val{}, false
+	}
 	type impl struct {
 		t types.Type
 		m *types.Func
